@@ -427,8 +427,17 @@ func buildClientMethod(p *Program, fd *ast.FuncDecl, sig *types.Signature) *Clie
 			}
 		}
 	}
-	// 4. NewRequestWithContext
+	// 4. NewRequestWithContext (optionally preceded by `bodyReader := bytes.NewReader(bs)`)
 	var reqObj types.Object
+	var bodyTmp types.Object
+	if i < len(list) {
+		if as, ok := list[i].(*ast.AssignStmt); ok && as.Tok == token.DEFINE && len(as.Lhs) == 1 && len(as.Rhs) == 1 {
+			if b, ok := as.Rhs[0].(*ast.CallExpr); ok && calleeName(info, b) == "bytes.NewReader" && len(b.Args) == 1 && identObj(info, b.Args[0]) == bsObj && bsObj != nil {
+				bodyTmp = identObj(info, as.Lhs[0])
+				i++
+			}
+		}
+	}
 	if i < len(list) {
 		if as, ok := list[i].(*ast.AssignStmt); ok && len(as.Lhs) == 2 && len(as.Rhs) == 1 {
 			if call, ok := rc.stdCall(as.Rhs[0], "net/http.NewRequestWithContext"); ok && len(call.Args) == 4 {
@@ -443,6 +452,9 @@ func buildClientMethod(p *Program, fd *ast.FuncDecl, sig *types.Signature) *Clie
 				}
 				switch b := call.Args[3].(type) {
 				case *ast.Ident:
+					if bodyTmp != nil && identObj(info, b) == bodyTmp {
+						break // the reader over the marshalled body, bound to a local first
+					}
 					if b.Name != "nil" {
 						und("unexpected request body %s", b.Name)
 					}
@@ -562,13 +574,23 @@ func buildClientMethod(p *Program, fd *ast.FuncDecl, sig *types.Signature) *Clie
 		return m
 	}
 	sw, ok := list[i].(*ast.SwitchStmt)
-	if !ok || sw.Tag == nil || types.ExprString(sw.Tag) != respObj.Name()+".StatusCode" {
+	// `switch resp.StatusCode` or `switch code := resp.StatusCode; code` (code then stands for it)
+	var codeAlias types.Object
+	if ok && sw.Init != nil {
+		if as, isAs := sw.Init.(*ast.AssignStmt); isAs && as.Tok == token.DEFINE && len(as.Lhs) == 1 && len(as.Rhs) == 1 &&
+			types.ExprString(as.Rhs[0]) == respObj.Name()+".StatusCode" && identObj(info, sw.Tag) == identObj(info, as.Lhs[0]) && identObj(info, sw.Tag) != nil {
+			codeAlias = identObj(info, as.Lhs[0])
+		} else {
+			ok = false
+		}
+	}
+	if !ok || sw.Tag == nil || (codeAlias == nil && types.ExprString(sw.Tag) != respObj.Name()+".StatusCode") {
 		und("statement after Do is not `switch resp.StatusCode`")
 		return m
 	}
 	for _, cc := range sw.Body.List {
 		cl := cc.(*ast.CaseClause)
-		arm := buildClientArm(p, fd, cl, respObj)
+		arm := buildClientArm(p, fd, cl, respObj, codeAlias)
 		if cl.List == nil {
 			arm.Status = "default"
 			m.Default = arm
@@ -590,21 +612,25 @@ func buildClientMethod(p *Program, fd *ast.FuncDecl, sig *types.Signature) *Clie
 	return m
 }
 
-func buildClientArm(p *Program, fd *ast.FuncDecl, cl *ast.CaseClause, respObj types.Object) *ClientArm {
+func buildClientArm(p *Program, fd *ast.FuncDecl, cl *ast.CaseClause, respObj, codeAlias types.Object) *ClientArm {
 	info := p.Pkg.TypesInfo
 	arm := &ClientArm{Body: "none", Pos: cl.Pos()}
 	und := func(f string, a ...any) { arm.Undecided = append(arm.Undecided, fmt.Sprintf(f, a...)) }
 	list := cl.Body
 	i := 0
 	rn := respObj.Name()
-	// optional close
-	if i < len(list) {
-		if ifs, ok := list[i].(*ast.IfStmt); ok && types.ExprString(ifs.Cond) == rn+".Body != nil" && len(ifs.Body.List) == 1 {
+	// optional close (first statement, or after the declaration / Code assignment of the response)
+	isClose := func(st ast.Stmt) bool {
+		if ifs, ok := st.(*ast.IfStmt); ok && ifs.Else == nil && types.ExprString(ifs.Cond) == rn+".Body != nil" && len(ifs.Body.List) == 1 {
 			if df, ok := ifs.Body.List[0].(*ast.DeferStmt); ok && types.ExprString(df.Call) == rn+".Body.Close()" {
-				arm.ClosesBody = true
-				i++
+				return true
 			}
 		}
+		return false
+	}
+	if i < len(list) && isClose(list[i]) {
+		arm.ClosesBody = true
+		i++
 	}
 	// error-only arm
 	if i < len(list) {
@@ -638,8 +664,9 @@ func buildClientArm(p *Program, fd *ast.FuncDecl, cl *ast.CaseClause, respObj ty
 	for ; i < len(list)-1; i++ {
 		switch st := list[i].(type) {
 		case *ast.AssignStmt:
-			// response.Code = resp.StatusCode
-			if len(st.Lhs) == 1 && types.ExprString(st.Lhs[0]) == response.Name()+".Code" && types.ExprString(st.Rhs[0]) == rn+".StatusCode" {
+			// response.Code = resp.StatusCode (or the switch's alias of it)
+			if len(st.Lhs) == 1 && types.ExprString(st.Lhs[0]) == response.Name()+".Code" &&
+				(types.ExprString(st.Rhs[0]) == rn+".StatusCode" || codeAlias != nil && identObj(info, st.Rhs[0]) == codeAlias) {
 				arm.CodeAssigned = true
 				continue
 			}
@@ -705,6 +732,12 @@ func buildClientArm(p *Program, fd *ast.FuncDecl, cl *ast.CaseClause, respObj ty
 				}
 			}
 			und("unexpected declaration")
+		case *ast.IfStmt:
+			if isClose(st) && !arm.ClosesBody && arm.Body == "none" && len(arm.Rows) == 0 {
+				arm.ClosesBody = true // nothing was read from the response before the deferred close is set up
+				continue
+			}
+			und("unexpected statement %T in response arm", st)
 		default:
 			und("unexpected statement %T in response arm", st)
 		}
